@@ -6,6 +6,7 @@ import (
 	"math/rand"
 	"reflect"
 	"sort"
+	"strconv"
 	"strings"
 
 	ucfg "github.com/elastic/go-ucfg"
@@ -148,14 +149,14 @@ func errClass(err error) string {
 			return "err:" + s.Error()
 		}
 	}
-	t := last.Error()
-	if i := strings.Index(t, " accessing"); i > 0 {
-		t = t[:i]
+	// an error of another package (strconv, time, regexp, a decoder): classed by
+	// its Go type and, where it has one, its own sentinel - never by wording
+	// (which setting a message blames, and how, is not compared)
+	class := fmt.Sprintf("err:%T", last)
+	if ne, ok := last.(*strconv.NumError); ok {
+		class += ":" + ne.Func + ":" + ne.Err.Error()
 	}
-	if len(t) > 40 {
-		t = t[:40]
-	}
-	return "err:" + t
+	return class
 }
 
 func (check) Run(seed int64, tier string, idx int, verbose bool) harness.Result {
